@@ -22,7 +22,7 @@ func (c01) Name() string { return "c01" }
 func (c01) Rule() string {
 	return "full-server simulation over the wire: histories of 5..40 client operations on 1..3 URIs: didOpen / didChange (1..4 content changes each; shapes: range-less, insertion, replace/delete inside a line, across line breaks, empty range at 0:0, end past end of line, end past end of document, deleting/creating line breaks, start past end of line) / didClose / re-open / didSave, interleaved with feature requests, with the server's background tasks scheduled anywhere (7 policies) and inbound bytes chunked. Text-profile documents: ASCII, BMP and non-BMP characters, LF or CRLF, empty, with/without final newline. Oracle 1 (mirror): after EVERY notification verif/getDocument must equal a reference UTF-16 client buffer, code unit for code unit. Oracle 2 (no older version): journal-profile documents carry version markers; no response to a request on document d may contain a marker of an older version of d (with a workspace: of any open document). Non-trivial: >= 1 ranged change applied and >= 1 feature request answered. Distinct: hash of (edit shapes, operation kinds, schedule signature)."
 }
-func (c01) Enumerated(string) int           { return 0 }
+func (c01) Enumerated(string) int            { return 0 }
 func (c01) Components() ([]string, []string) { return serverComponents() }
 
 var markerRe = regexp.MustCompile(`d(\d+)(?::| )v(\d+)`)
